@@ -50,6 +50,10 @@ def _build(case):
     H = crn_gen.build(case, explicit_ids=ids)
     if case.get("mol"):
         H.set_mol_map({k: v for k, v in case["mol"].items() if k in H.species}, strict=True)
+    for s in case.get("strip") or []:
+        # strip a species from every reaction but keep it in the network: an isolated (reaction-less) species
+        if s in H.species and len(H.edges) > 1:
+            H.remove_species(s, prune_orphans=False)
     return H
 
 
@@ -81,10 +85,17 @@ def body_bipartite(case, rec):
         a, b = Counter(edge_rows(H, False)), Counter(edge_rows(H2, False))
         if a != b:
             raise Violation("bipartite-roundtrip-noids", f"{sorted(a.items())} != {sorted(b.items())}")
-    if dict(H.species_to_mol) != dict(H2.species_to_mol):
-        raise Violation("bipartite-mol", f"{dict(H.species_to_mol)} != {dict(H2.species_to_mol)}")
-    if set(H2.species) != set(H.species):
-        raise Violation("bipartite-species", f"{sorted(H.species)} != {sorted(H2.species)}")
+    occurring = {x for e in H.edges.values() for x in list(e.reactants.keys()) + list(e.products.keys())}
+    # a reaction-less species cannot be re-created on import (the store has no way to add one) and the statement
+    # speaks of reactions and their labels: only species occurring in reactions are compared
+    want_species = occurring
+    want_mol = {k: v for k, v in H.species_to_mol.items() if k in want_species}
+    if set(H.species) - occurring:
+        rec.label("has-isolated-species")
+    if want_mol != dict(H2.species_to_mol):
+        raise Violation("bipartite-mol", f"{want_mol} != {dict(H2.species_to_mol)}")
+    if set(H2.species) != want_species:
+        raise Violation("bipartite-species", f"{sorted(want_species)} != {sorted(H2.species)}")
 
 
 def body_strings(case, rec):
@@ -178,7 +189,8 @@ def _with_common(strat, extra):
 
 def strat_bipartite(tier):
     flags = st.fixed_dictionaries(
-        dict(integer_ids=st.booleans(), include_role=st.booleans(), isolated=st.booleans(), no_prefix=st.booleans(), with_ids=st.sampled_from([True, True, False]))
+        dict(integer_ids=st.booleans(), include_role=st.booleans(), isolated=st.booleans(), no_prefix=st.booleans(), with_ids=st.sampled_from([True, True, False]),
+             strip=st.one_of(st.just([]), st.just([]), st.lists(st.sampled_from(crn_gen.SPECIES[:5]), min_size=1, max_size=2)))
     )
     return _with_common(_net(True, tier), flags)
 
